@@ -107,6 +107,7 @@ Section LRUS.
     | LruResize _ n => if n <=? length l then Some (firstn n l, LruVoid _) else None
     | LruClear _ => Some ([], LruVoid _)
     | LruCopy _ => Some (l, LruVoid _)
+    | LruAssignOnto _ _ => Some (l, LruVoid _)        (* whatever the target held before, afterwards it shows the source's entries *)
     end.
   Definition c11_lrus_observe (nkeys : nat) (w : c11_lrus_world) : c11_lru_obs V :=
     let l := fst w in
